@@ -59,6 +59,12 @@ impl<'a> Gen<'a> {
         }
     }
 
+    /// Read `p` through a type-opaque expression (`get!` returns `any`) most of the time, so that what the
+    /// compiler already knows about the path does not make the surrounding `??` / `ok, err =` "unnecessary".
+    fn any(&mut self, p: &str) -> String {
+        if self.rng.chance(0.75) { format!("get!({{\"v\": {p}}}, [\"v\"])") } else { p.to_string() }
+    }
+
     fn lit(&mut self) -> &'static str {
         LITS[self.rng.below(LITS.len())]
     }
@@ -68,13 +74,13 @@ impl<'a> Gen<'a> {
         match self.rng.below(n) {
             0 => self.lit().to_string(),
             1 => self.path().to_string(),
-            2 => format!("({} ?? {})", self.path(), self.lit()),
-            3 => format!("(to_int({}) ?? 0)", self.path()),
+            2 => format!("({} ?? {})", { let p = self.path(); format!("to_string({})", self.any(p)) }, "\"n\""),
+            3 => format!("(to_int({}) ?? 0)", { let p = self.path(); self.any(p) }),
             4 => format!("exists({})", self.npath()),
             5 => format!("del({})", self.npath()),
             6 => format!("del({}, compact: true)", self.npath()),
-            7 => format!("(string({}) ?? \"d\")", self.path()),
-            8 => format!("length(array({}) ?? [])", self.path()),
+            7 => format!("(string({}) ?? \"d\")", { let p = self.path(); self.any(p) }),
+            8 => format!("length(array({}) ?? [])", { let p = self.path(); self.any(p) }),
             _ => self.defined[self.rng.below(self.defined.len())].to_string(),
         }
     }
@@ -127,12 +133,12 @@ impl<'a> Gen<'a> {
                 if p == "." || p == "%" {
                     format!("{p} |= {{\"z\": {r}}}")
                 } else {
-                    format!("{p} = object({p}) ?? {{}}\n{p} |= {{\"z\": {r}}}")
+                    format!("{p} = object({}) ?? {{}}\n{p} |= {{\"z\": {r}}}", self.any(p))
                 }
             }
             3 => {
                 let v = self.var();
-                let s = format!("{}, {v} = to_int({})", self.wpath(), self.path());
+                let s = format!("{}, {v} = to_int({})", self.wpath(), { let p = self.path(); self.any(p) });
                 if top && !self.defined.contains(&v) {
                     self.defined.push(v);
                 }
@@ -140,7 +146,7 @@ impl<'a> Gen<'a> {
             }
             4 => {
                 let v = self.var();
-                let s = format!("{v}, {} = to_int({})", self.wpath(), self.rvalue());
+                let s = format!("{v}, {} = to_int({})", self.wpath(), { let r = self.rvalue(); self.any(&r) });
                 if top && !self.defined.contains(&v) {
                     self.defined.push(v);
                 }
@@ -160,11 +166,11 @@ impl<'a> Gen<'a> {
                 let a = self.stmt(depth + 1, false);
                 format!("if {r} == {l} {{\n  {}\n}}", a.replace('\n', "\n  "))
             }
-            9 => format!("for_each(object({}) ?? {{}}) -> |_k, v| {{ {} = v }}", self.path(), self.wpath()),
-            10 => format!("for_each(array({}) ?? []) -> |i, _v| {{ {} = i }}", self.path(), self.wpath()),
+            9 => format!("for_each(object({}) ?? {{}}) -> |_k, v| {{ {} = v }}", { let p = self.path(); self.any(p) }, self.wpath()),
+            10 => format!("for_each(array({}) ?? []) -> |i, _v| {{ {} = i }}", { let p = self.path(); self.any(p) }, self.wpath()),
             11 => {
                 let v = self.var();
-                let s = format!("{v} = map_values(object({}) ?? {{}}) -> |v| {{ {} = v; v }}", self.path(), self.wpath());
+                let s = format!("{v} = map_values(object({}) ?? {{}}) -> |v| {{ {} = v; v }}", { let p = self.path(); self.any(p) }, self.wpath());
                 if top && !self.defined.contains(&v) {
                     self.defined.push(v);
                 }
@@ -172,7 +178,7 @@ impl<'a> Gen<'a> {
             }
             12 => {
                 let v = self.var();
-                let s = format!("{v} = filter(array({}) ?? []) -> |_i, v| {{ {} = v; true }}", self.path(), self.wpath());
+                let s = format!("{v} = filter(array({}) ?? []) -> |_i, v| {{ {} = v; true }}", { let p = self.path(); self.any(p) }, self.wpath());
                 if top && !self.defined.contains(&v) {
                     self.defined.push(v);
                 }
